@@ -176,7 +176,9 @@ def build_model(spec: dict):
         m = model_factory(kind, spec.get("name"), **hp)
         data = synth.make_data(df, kind)
         if spec.get("fit_iter"):
-            m.fit(data, "mcmc_saem", n_iter=spec["fit_iter"], seed=spec.get("fit_seed", 0), progress_bar=False)
+            with _RunRecorder() as rr:
+                m.fit(data, "mcmc_saem", n_iter=spec["fit_iter"], seed=spec.get("fit_seed", 0), progress_bar=False)
+            m._c12_sampling_state = rr.states[-1] if rr.states else None
         else:
             m.initialize(Dataset(data))
         if spec.get("hand_seed") is not None:
@@ -602,19 +604,58 @@ def history_specs(run: Run, thorough: bool):
         fit = ["fit", rng.choice([1, 2]), rng.randrange(100)]
         hs = [
             [["load", a], ["load_parameters", b]],                       # the model already holds (other) parameters
-            [fit, ["load_parameters", b]],                                # ... from a fit
+            [fit, ["save"], ["load_parameters", b]],                      # ... from a fit, and was saved in between
             [["load", a], ["load_parameters", a]],                       # same values twice
+            [["load", a], ["save"], ["load_parameters", b], ["save"]],   # observers between and after
         ]
         extra = [
-            [["load", a], ["load_parameters", b], ["load_parameters", d]],
+            [["load", a], ["load_parameters", b], ["save"], ["load_parameters", d]],
             [["load", a], ["load_parameters", b], fit],
             [fit, ["load_parameters", b], ["load_parameters", b]],
-            [["load", a], fit, ["load_parameters", d]],
+            [["load", a], ["save"], fit, ["save"], ["load_parameters", d]],
         ]
         hs += extra if thorough else [rng.choice(extra)]
         for steps in hs:
             out.append(dict(spec=c, steps=steps))
     return out
+
+
+class _RunRecorder:
+    """Records the State returned by TensorMcmcSaemAlgorithm._run (the sampling state after the last iteration: it holds the
+    FINAL parameters) while active; restores on exit."""
+
+    def __enter__(self):
+        from leaspy.algo.fit.mcmc_saem import TensorMcmcSaemAlgorithm as A
+        self.A, self.orig, self.states = A, A._run, []
+        rec, orig = self.states, self.orig
+
+        def wrapped(algo, model, dataset, **kw):
+            st = orig(algo, model, dataset, **kw)
+            rec.append(st)
+            return st
+        A._run = wrapped
+        return self
+
+    def __exit__(self, *exc):
+        self.A._run = self.orig
+        return False
+
+
+def oracle_final_parameters(run: Run, m, sampling_state, small):
+    """after a fit: the parameters of the state installed in the model are the FINAL ones (those of the sampling state after
+    the last iteration), bit-for-bit — second clause of C12_self_consistent."""
+    if sampling_state is None:
+        return
+    n = 0
+    for p in m.parameters_names:
+        a, b = m.state[p], sampling_state[p]
+        n += 1
+        if not same_values(a, b):
+            run.fail("self-consistency:fit:model-parameters-not-the-final-ones", f"after the fit the model's `{p}` is not the value "
+                     "held by the sampling state after the last iteration (the model was derived from earlier parameters)", small,
+                     expected=b.reshape(-1).tolist()[:4], observed=a.reshape(-1).tolist()[:4])
+            break
+    run.count("self-consistency", "final-parameters-compared", n)
 
 
 class _SetRecorder:
@@ -691,15 +732,23 @@ def oracle_history(run: Run, hist: dict, tmp: Path, idx: int, lp_cases: list | N
                     f, _ = written(st[1])
                     m = BaseModel.load(str(f))
                     last = ("params", st[1])
+                elif op == "save":
+                    # an observer between two updates: to_dict / save / estimate read the state (and fill its cache)
+                    m.save(str(tmp / f"h{idx}_obs{steps.index(st)}.json"))
+                    m.to_dict()
+                    trajectories(m, df)
                 elif op == "fit":
                     if m is None:
                         m, df = build_model({**spec, "fit_iter": st[1], "fit_seed": st[2]})
+                        oracle_final_parameters(run, m, getattr(m, "_c12_sampling_state", None), hist)
                     else:
                         if df is None:
                             df = synth.make_df(n_ind=8, n_feat=spec["n_feat"], seed=spec.get("data_seed", 1), joint=spec["kind"] == "joint",
                                                kind="linear" if spec["kind"] == "linear" else "logistic",
                                                binary=(spec.get("noise") == "bernoulli"))
-                        m.fit(synth.make_data(df, spec["kind"]), "mcmc_saem", n_iter=st[1], seed=st[2], progress_bar=False)
+                        with _RunRecorder() as rr:
+                            m.fit(synth.make_data(df, spec["kind"]), "mcmc_saem", n_iter=st[1], seed=st[2], progress_bar=False)
+                        oracle_final_parameters(run, m, rr.states[-1] if rr.states else None, hist)
                     last = ("fit",)
                 elif op == "load_parameters":
                     _, d = written(st[1])
@@ -736,9 +785,13 @@ def oracle_history(run: Run, hist: dict, tmp: Path, idx: int, lp_cases: list | N
     # (b) against a FRESH model built from the last parameters
     if last and last[0] == "params":
         f, d = written(last[1])
-        with warnings.catch_warnings(), quiet():
-            warnings.simplefilter("ignore")
-            fresh = BaseModel.load(str(f))
+        try:
+            with warnings.catch_warnings(), quiet():
+                warnings.simplefilter("ignore")
+                fresh = BaseModel.load(str(f))
+        except Exception as e:  # noqa
+            bad(f"fresh-load-raises:{type(e).__name__}", f"BaseModel.load of a file written by to_dict raised {type(e).__name__}: {str(e)[:160]}")
+            return False
         for k, v in fresh.parameters.items():
             if k not in m.parameters or not tensors_equal_bits(m.parameters[k], v):
                 bad("parameters-not-the-last-ones", f"parameter {k} is not the value given to the last load_parameters",
@@ -956,6 +1009,13 @@ def translate(run: Run) -> bool:
         lsrc = ast.unparse(loop[0])
         if "self[pp] = var.get_init_func(method).call(self)" not in lsrc:
             raise ValueError("put_population_latent_variables no longer assigns get_init_func(method).call(self)")
+        lbody = [ast.unparse(t) for t in loop[0].body if not isinstance(t, ast.AnnAssign)]
+        if ast.unparse(loop[0].target) != "(pp, var)" or loop[0].orelse or lbody != [
+                "if method is None:\n    self[pp] = None\nelse:\n    self[pp] = var.get_init_func(method).call(self)"]:
+            raise ValueError("put_population_latent_variables: the loop body is no longer the unconditional assignment of every "
+                             f"population variable: {lbody}")
+        if [type(t).__name__ for t in fn.body if not (isinstance(t, ast.Expr) and isinstance(t.value, ast.Constant))] != ["For"]:
+            raise ValueError("put_population_latent_variables: statements besides the loop")
         tree = ast.parse((SRC / "variables" / "specs.py").read_text())
         fn = [n for n in ast.walk(tree) if isinstance(n, ast.FunctionDef) and n.name == "_get_init_func_generic"][0]
         fsrc = ast.unparse(fn)
@@ -1067,6 +1127,7 @@ def _check(run: Run, thorough: bool, version: str, tmp: Path):
         oracle_roundtrip(run, m, df, spec, tmp, idx)
         if spec.get("fit_iter"):
             oracle_self_consistent(run, m, spec)
+            oracle_final_parameters(run, m, getattr(m, "_c12_sampling_state", None), spec)
     if save_meta:
         run.sample(dict(kind="save-case", spec=save_meta[0]))
     if load_meta:
@@ -1192,6 +1253,7 @@ def replay(run: Run, path: str):
         oracle_roundtrip(run, m, df, inp, tmp, 0)
         if inp.get("fit_iter"):
             oracle_self_consistent(run, m, inp)
+            oracle_final_parameters(run, m, getattr(m, "_c12_sampling_state", None), inp)
     finally:
         shutil.rmtree(SCRATCH, ignore_errors=True)
     hits = [f for f in run._fails] + [dict(signature=s, what=w) for s, w in run._known_hit.items()]
